@@ -480,8 +480,9 @@ def guard_add():
                 v, f"sum({me}.calculate({name}, {sub}) for {sub} in {per}.get_subperiods({var}.definition_period))")
     if not ok:
         at = rest[0] if rest else fn
-        raise TranslationError(f"{_where(what, at)}: after the guards, expected only "
-                               f"'return sum(self.calculate(name, sub) for sub in period.get_subperiods(variable.definition_period))'")
+        got = _src(at).splitlines()[0] if rest else "nothing"
+        raise TranslationError(f"{_where(what, at)}: after the guards, expected only 'return sum(self.calculate(name, sub) "
+                               f"for sub in period.get_subperiods(variable.definition_period))', got '{got}'")
     if not chain:
         raise TranslationError(f"{what}: no guard found")
     return ("(* Simulation.calculate_add, the tests before the sum: true = raises ValueError *)\n"
